@@ -44,6 +44,7 @@ func c01Raw(rcx *RunCtx) {
 		c04Tree(fs)
 		fs.MkPath("/" + strings.Repeat("w/", 40))
 		g := &gen{ch: simrt.Choose, extreme: true}
+		var nextDir p9.Dirents // what the next Readdir returns, when the request was sized for it
 		// every successful backend result is whatever the generator says
 		script := func(c *simfs.Call) {
 			switch c.Method {
@@ -62,9 +63,12 @@ func c01Raw(rcx *RunCtx) {
 			case "Lock":
 				c.RLock = p9.LockStatus(g.u32())
 			case "Readdir":
-				var ds p9.Dirents
-				for i := g.ch(8); i > 0; i-- {
-					ds = append(ds, p9.Dirent{QID: g.qid(), Offset: g.u64(), Type: p9.QIDType(g.u32()), Name: g.name()})
+				ds := nextDir
+				nextDir = nil
+				if ds == nil {
+					for i := g.ch(8); i > 0; i-- {
+						ds = append(ds, p9.Dirent{QID: g.qid(), Offset: g.u64(), Type: p9.QIDType(g.u32()), Name: g.name()})
+					}
 				}
 				c.RDir = ds
 			}
@@ -105,6 +109,21 @@ func c01Raw(rcx *RunCtx) {
 				m = &rc.Tread{Fid: 1, Offset: g.u64(), Count: uint32(g.ch(60000))}
 			case 6:
 				m = &rc.Treaddir{Fid: 2, Offset: g.u64(), Count: uint32(g.ch(60000))}
+				if g.ch(2) == 0 {
+					// a count aimed at the boundary: exactly the first k
+					// entries (24 + len(name) bytes each), one byte less, one more
+					sum, k := 0, 1+g.ch(6)
+					for i := 0; i < k+g.ch(3); i++ {
+						d := p9.Dirent{QID: g.qid(), Offset: g.u64(), Type: p9.QIDType(g.u32()), Name: g.name()}
+						nextDir = append(nextDir, d)
+						if i < k {
+							sum += 24 + len(d.Name)
+						}
+					}
+					if c := sum - 1 + g.ch(3); c > 0 && c < 60000 {
+						m = &rc.Treaddir{Fid: 2, Offset: g.u64(), Count: uint32(c)}
+					}
+				}
 			case 7:
 				m = &rc.Tmkdir{Dfid: 4, Name: g.name(), Mode: g.u32(), GID: g.u32()}
 			case 8:
@@ -263,7 +282,7 @@ func init() {
 			}
 		},
 		Quick: 48000, Thorough: 3000000, QuickSecs: 60, ThorSecs: 1500,
-		Rule:  fmt.Sprintf("three sub-engines in rotation. (a) raw peer -> real server: requests of 26 T-types encoded by the independent codec with boundary-biased field values (0, 1, 2^k+-1, max, NOFID/NoUID, names of 1/255/4000 bytes with NUL and high bytes, payloads 0/1/255/256/4096/60000 bytes), getattr/setattr masks walking through ALL 2^14 / 2^9 combinations as the run index advances; the backend's results are scripted with the same generators; oracle: backend arguments = request fields (modulo 07777 on permission fields), and the R-frame decoded by the independent codec = what the backend returned (Rreaddir cut to the whole entries within count). (b) real client -> fake server: 26 client operations from 1-3 concurrent callers, in a third of the runs 30% of the requests answered with nonce-derived Rlerrors; oracle: every T-frame parses exactly per the spec table, returned values = the nonce-derived full-range fields the fake server encoded. (c) closed loop real client <-> real server with extreme values (C03's oracle). The wire monitor checks size = frame length, type byte per spec table (%d types) and exact layout on every connection of every run of every engine. Types not reachable through the public API (Rauth; Rflush/Rxattrcreate on the client) are outside.", 65),
+		Rule:  fmt.Sprintf("three sub-engines in rotation. (a) raw peer -> real server: requests of 26 T-types encoded by the independent codec with boundary-biased field values (0, 1, 2^k+-1, max, NOFID/NoUID, names of 1/255/4000 bytes with NUL and high bytes, payloads 0/1/255/256/4096/60000 bytes, half of the Treaddir counts aimed at exactly / one below / one above the size of the first k scripted entries), getattr/setattr masks walking through ALL 2^14 / 2^9 combinations as the run index advances; the backend's results are scripted with the same generators; oracle: backend arguments = request fields (modulo 07777 on permission fields), and the R-frame decoded by the independent codec = what the backend returned (Rreaddir cut to the whole entries within count). (b) real client -> fake server: 26 client operations from 1-3 concurrent callers, in a third of the runs 30% of the requests answered with nonce-derived Rlerrors; oracle: every T-frame parses exactly per the spec table, returned values = the nonce-derived full-range fields the fake server encoded. (c) closed loop real client <-> real server with extreme values (C03's oracle). The wire monitor checks size = frame length, type byte per spec table (%d types) and exact layout on every connection of every run of every engine. Types not reachable through the public API (Rauth; Rflush/Rxattrcreate on the client) are outside.", 65),
 		Assume: []string{"the independent codec (refcodec) was written from the 9P2000.L description and the gVisor extension layout; a disagreement is investigated against the spec text, not resolved in p9's favour"},
 		Real:   []string{"p9 encode/decode of all message types", "p9.Client", "p9.Server"},
 		Stub:   []string{"transport (simnet)", "raw 9P peer and fake server (refcodec)", "backend (simfs, scripted results)"},
